@@ -90,6 +90,48 @@ fn call_function(a: &[String]) -> String {
     }
 }
 
+/// vmstep object-method <name-hex> <receiver 0|1> <chain end> <argument>*
+/// heap: #0 = object { parent: <chain end>, methods { m/2 (one extra local) } }, #1 = object { parent: #0, methods { n/2 } }
+fn object_method(a: &[String]) -> String {
+    use indexmap::IndexMap;
+    let name = unhex(&a[0]);
+    let recv: usize = a[1].parse().unwrap();
+    let parent = parse(&a[2]);
+    let args: Vec<Pointer> = a[3..].iter().map(|s| parse(s)).collect();
+    let program = prog(filler_code(6), vec![ProgramObject::String(name)]);
+    let method = |start: u32, locals: u16| ProgramObject::Method { name: ConstantPoolIndex::new(0), parameters: Arity::new(2), locals: Size::new(locals),
+                                                                  code: AddressRange::new(Address::from_u32(start), 1) };
+    let mut m0 = IndexMap::new();
+    m0.insert("m".to_string(), method(3, 1));
+    let mut m1 = IndexMap::new();
+    m1.insert("n".to_string(), method(4, 0));
+    let mut state = plain_state();
+    state.heap = Heap::from(vec![HeapObject::new_object(parent, IndexMap::new(), m0),
+                                 HeapObject::new_object(Pointer::Reference(HeapIndex::from(0usize)), IndexMap::new(), m1)]);
+    state.operand_stack.push(Pointer::Reference(HeapIndex::from(recv)));
+    for v in args.iter() { state.operand_stack.push(*v); }
+    let r = eval_call_method(&program, &mut state, &ConstantPoolIndex::new(0), &Arity::new(args.len() as u8 + 1));
+    match r {
+        Err(_) => "ERR".to_string(),
+        Ok(()) => {
+            let ipn = state.instruction_pointer.get().map(|x| x.value_u32().to_string()).unwrap_or("none".to_string());
+            let mut slots = vec![];
+            {
+                let f = state.frame_stack.get_locals().unwrap();
+                let mut i = 0u16;
+                while let Ok(p) = f.get(&LocalFrameIndex::new(i)) { slots.push(show(p)); i += 1; }
+            }
+            let mut frames = 0;
+            while state.frame_stack.pop().is_ok() { frames += 1; }
+            if frames == 2 {
+                format!("CALL ip={} frame=[{}]", ipn, slots.join(" "))
+            } else {
+                format!("OK {}", show(&state.operand_stack.pop().unwrap()))
+            }
+        }
+    }
+}
+
 fn main() {
     let a: Vec<String> = std::env::args().collect();
     let rest: Vec<String> = a[2..].to_vec();
@@ -98,6 +140,7 @@ fn main() {
     let r = std::panic::catch_unwind(move || match kind.as_str() {
         "array-method" => array_method(&rest),
         "call-function" => call_function(&rest),
+        "object-method" => object_method(&rest),
         other => format!("unknown kernel {}", other),
     });
     match r {
